@@ -129,7 +129,11 @@ COINCIDENCES = ["add_constant:0", "add_series:zeros", "reset:same", "reset:rever
                 "add_series:sum0", "reset:same-ends", "reset:negated", "reset:as-f4", "reset:as-i8", "reset:as-list", "reset:rolled",
                 "add_series:swap"]
 SWEEP_COIN = [(cls, n, c) for cls in ("Signal", "AccSignal") for n in (15, 16) for c in COINCIDENCES]
-N_SWEEP = len(SWEEP_STATE) + len(SWEEP_K2) + len(SWEEP_K2_READS) + len(SWEEP_NI) + len(SWEEP_ABA) + len(SWEEP_COIN)
+# the second-object route: B is built from (or reset to) the array that A's `.values` hands out, both are read, then every
+# mutator is applied to A and to B -- memory shared between the two shows as staleness of the other one
+SWEEP_SHARE = [(cls, route, "mut:" + m) for cls, muts in (("Signal", MUT_SIG), ("AccSignal", MUT_ACC)) for route in ("new", "reset")
+               for m in muts]
+N_SWEEP = len(SWEEP_STATE) + len(SWEEP_K2) + len(SWEEP_K2_READS) + len(SWEEP_NI) + len(SWEEP_ABA) + len(SWEEP_COIN) + len(SWEEP_SHARE)
 REPRESENTATIVE = {"fa": ["fa_spectrum", "fa_spectrum_abs", "fa_freqs", "fa_frequencies"], "smooth": ["smooth_fa_spectrum"],
                   "vd": ["velocity", "displacement"], "pga": ["pga"], "pgv": ["pgv"], "pgd": ["pgd"],
                   "resp": ["s_a", "s_v", "s_d"]}
@@ -233,9 +237,12 @@ class C04(Profile):
         elif index < len(SWEEP_STATE) + len(SWEEP_K2) + len(SWEEP_K2_READS) + len(SWEEP_NI) + len(SWEEP_ABA):
             cls, how, mk = SWEEP_ABA[index - len(SWEEP_STATE) - len(SWEEP_K2) - len(SWEEP_K2_READS) - len(SWEEP_NI)]
             cfg.update(run_class="sweep-state", sweep={"cls": cls, "state": [], "aba": {"how": how, "mk": mk}})
-        else:
+        elif index < N_SWEEP - len(SWEEP_SHARE):
             cls, n, c = SWEEP_COIN[index - len(SWEEP_STATE) - len(SWEEP_K2) - len(SWEEP_K2_READS) - len(SWEEP_NI) - len(SWEEP_ABA)]
             cfg.update(run_class="sweep-state", sweep={"cls": cls, "state": [], "coin": {"n": n, "c": c}})
+        else:
+            cls, route, mk = SWEEP_SHARE[index - (N_SWEEP - len(SWEEP_SHARE))]
+            cfg.update(run_class="sweep-state", sweep={"cls": cls, "state": [], "share": {"route": route, "mk": mk}})
         return cfg
 
     def new_world(self, config):
@@ -260,13 +267,29 @@ class C04(Profile):
     def _party(self, world, name):
         return world.objs.get(name)
 
+    @staticmethod
+    def _val(world, a):
+        """An argument: a literal, or the very array that another object's `.values` hands out (the second-object route:
+        `b.reset_values(a.values)`, `Signal(a.values, dt)`)."""
+        if isinstance(a, dict) and "ovalues" in a:
+            return world.objs[a["ovalues"]].values
+        return codec.dec(a)
+
+    @staticmethod
+    def _refs(op):
+        r = [a["ovalues"] for a in op.get("a", []) if isinstance(a, dict) and "ovalues" in a]
+        v = op.get("values")
+        if isinstance(v, dict) and "ovalues" in v:
+            r.append(v["ovalues"])
+        return r
+
     def _exec(self, world, op):
         eqsig = self.eqsig
         k = op["op"]
         if k == "new":
             cls = getattr(eqsig, op["cls"])
             kw = {a: codec.dec(b) for a, b in op.get("kw", {}).items()}
-            obj = cls(codec.dec(op["values"]), op["dt"], **kw)
+            obj = cls(self._val(world, op["values"]), op["dt"], **kw)
             world.objs[op["p"]] = obj
             world.lastread[op["p"]] = set()
             world.warm[op["p"]] = set()
@@ -318,7 +341,7 @@ class C04(Profile):
             if name == "add_signal":
                 return obj.add_signal(self._other(world, op))
             kw = {a: codec.dec(b) for a, b in op.get("kw", {}).items()}
-            return getattr(obj, name)(*[codec.dec(a) for a in op.get("a", [])], **kw)
+            return getattr(obj, name)(*[self._val(world, a) for a in op.get("a", [])], **kw)
         if k == "set":
             how, v = op["how"], codec.dec(op["v"])
             if isinstance(v, np.ndarray):
@@ -370,6 +393,8 @@ class C04(Profile):
 
     def _exists(self, world, op):
         k = op["op"]
+        if any(q not in world.objs for q in self._refs(op)):
+            return False
         if k in ("new", "newk"):
             return True
         if k in ("kop", "kread"):
@@ -792,7 +817,11 @@ class C04(Profile):
                 yield ops[:i] + [o2] + ops[i + 1:], config
         # 3. shrink constructor records
         for i, o in enumerate(ops):
-            if o["op"] == "new":
+            if o["op"] == "new" and isinstance(o["values"], dict) and "ovalues" in o["values"]:
+                o2 = dict(o)
+                o2["values"] = {"nd": "f8", "v": [round(0.1 * ((j % 7) - 3), 1) for j in range(16)]}
+                yield ops[:i] + [o2] + ops[i + 1:], config
+            elif o["op"] == "new":
                 vals = o["values"]
                 data = vals["v"] if isinstance(vals, dict) else vals
                 for n in (64, 32, 16, 8, 4, 2):
@@ -967,6 +996,27 @@ class OpGen(object):
                     self.queue.append(lambda w, who=who, x=x: {"op": "read", "p": who, "x": x})
             self.queue.append(lambda w: self.g_mut(w, b, "add_constant"))
             self.queue.append(lambda w: {"op": "read", "p": a, "x": "velocity"})
+            return
+        if "share" in sw:
+            route, mk = sw["share"]["route"], sw["share"]["mk"]
+            self.queue.append(lambda w: self.g_new("S0", cls))
+
+            def second(w):
+                op = self.g_new("S1", cls, like="S0")
+                if route == "new":
+                    op["values"] = {"ovalues": "S0"}
+                return op
+            self.queue.append(second)
+            if route == "reset":
+                self.queue.append(lambda w: {"op": "mut", "p": "S1", "m": "reset_values", "a": [{"ovalues": "S0"}], "kw": {}})
+            obs = list(OBS_ACC if cls == "AccSignal" else OBS_SIG)
+            for who in ("S0", "S1"):
+                rng.shuffle(obs)
+                for x in obs[:rng.randint(3, len(obs))]:
+                    self.queue.append(lambda w, who=who, x=x: {"op": "read", "p": who, "x": x})
+            first = rng.choice(["S0", "S1"])
+            for who in (first, "S1" if first == "S0" else "S0"):
+                self.queue.append(lambda w, who=who: self.g_directed(w, who, mk, want_fault=False))
             return
         if "aba" in sw:
             how, mk = sw["aba"]["how"], sw["aba"]["mk"]
@@ -1156,6 +1206,10 @@ class OpGen(object):
         if like is not None and self._world is not None and like in self._world.objs:
             n, dt = len(self._world.objs[like].values), float(self._world.objs[like].dt)
         op = {"op": "new", "p": name, "cls": cls, "values": self._values(n), "dt": dt or self._dt(), "kw": {}}
+        if self._world is not None and rng.random() < 0.2:
+            others = [q for q in sorted(self._world.objs) if q != name]
+            if others:
+                op["values"] = {"ovalues": rng.choice(others)}       # Signal(a.values, dt)
         self.ranges[name] = ((0.1, 30), 50)
         if not self.cfg["default_settings"] or rng.random() < 0.5:
             c = rng.random()
@@ -1330,6 +1384,9 @@ class OpGen(object):
                     return op
         if base == "reset_values":
             op["a"] = [self._values()]
+            others = [q for q in sorted(world.objs) if q != p]
+            if others and rng.random() < 0.2:
+                op["a"] = [{"ovalues": rng.choice(others)}]      # b.reset_values(a.values): the array another object hands out
         elif base == "add_constant":
             op["a"] = [round(rng.choice([-1, 1]) * amp * rng.uniform(0.2, 2.0), 4)]
             if rng.random() < 0.2:      # a change that is small next to the record (a 'nothing changed' test must be exact)
